@@ -3,6 +3,13 @@
    Output: one line "MISMATCH \t lineno \t model_obs" per disagreement, then
    "DONE \t cases \t mismatches".  With argument "print" it prints the model
    observation for each line instead (used by replay). *)
+(* " spec=..." is a marker the harness appends after checking the property's relation
+   directly on the implementation's results; it is judged by a separate stage, not compared *)
+let strip_spec (s : string) : string =
+  let n = String.length s in
+  let rec find i = if i + 6 > n then n else if String.sub s i 6 = " spec=" then i else find (i + 1) in
+  String.sub s 0 (find 0)
+
 let () =
   let print_mode = Array.length Sys.argv > 1 && Sys.argv.(1) = "print" in
   let n = ref 0 and bad = ref 0 in
@@ -36,7 +43,7 @@ let () =
                 | Stack_overflow -> "MODEL-ERROR:stack-overflow"
                 | Not_found -> "MODEL-ERROR:not-found") in
            if print_mode then print_endline model_obs
-           else if model_obs <> impl_obs then begin
+           else if strip_spec model_obs <> strip_spec impl_obs then begin
              incr bad;
              Printf.printf "MISMATCH\t%d\t%s\n" !n model_obs
            end
